@@ -38,6 +38,14 @@ pub const POOL: &[&str] = &[
     "\"a\"",
     "\"abc\"",
     "\"é名😀\"",
+    // long texts in several scripts (1-, 2-, 3- and 4-byte characters at every offset): error messages quote and
+    // abbreviate the offending value
+    "\"жжж名名\" * 13",
+    "\"ab名\" * 30",
+    "\"q😀ж\" * 25",
+    "[\"名前\" * 20, \"ключ\" * 9]",
+    "{\"ключ\" * 10: \"значение\" * 10}",
+    "(\"é\" * 70, \"名\" * 33)",
     "\"%s %d {} {0} {x}\"",
     "\"a\" * 1000",
     "[]",
@@ -371,7 +379,7 @@ fn is_big_count(s: &str) -> bool {
 }
 
 fn is_sized(s: &str) -> bool {
-    s.starts_with('"') || s.starts_with('[') || s.starts_with('(') || s.starts_with("b\"") || s == "SELF_LIST" || s == "FZ_LIST" || s == "FZ_TUPLE" || s == "FZ_NESTED" || s == "SELF_TUPLE" || s == "FZ_DEEP" || s == "DEEP_LIST"
+    s.starts_with('"') || s.starts_with('[') || s.starts_with('(') || s.starts_with("b\"") || s == "SELF_LIST" || s == "FZ_LIST" || s == "FZ_TUPLE" || s == "FZ_NESTED" || s == "SELF_TUPLE" || s == "FZ_DEEP" || s == "DEEP_LIST" || s.starts_with('{')
 }
 
 /// One ill-typed snippet (a statement) built from the hostile pool.
